@@ -35,7 +35,7 @@ REG_OF_OP = {
     "set_dynamic_payloads": (0x1C, 0x1D), "payload_length": (0x11,), "set_payload_length": (0x11,), "ack": (1, 0x1C, 0x1D),
     "allow_ask_no_ack": (0x1D,), "interrupt_config": (0,), "power": (0,), "open_rx_pipe": (2, 0x0A), "close_rx_pipe": (2,),
     "open_tx_pipe": (0x0A, 0x10), "listen": (0, 2, 0x0A), "load_ack": (1, 0x1C, 0x1D), "start_carrier_wave": (0, 6),
-    "stop_carrier_wave": (0, 6), "ctx": (0,), "getters": (), "getp": (),
+    "stop_carrier_wave": (0, 6), "ctx": (0,), "getters": (), "getp": (), "print": (),
 }
 LITE_OPS = {"channel", "data_rate", "pa_level", "address_length", "ard", "arc", "dynamic_payloads", "payload_length", "ack",
             "interrupt_config", "power", "open_rx_pipe", "close_rx_pipe", "open_tx_pipe", "listen", "load_ack", "getters"}
@@ -138,6 +138,27 @@ def call_driver(r, lite, name, a):
     return None
 
 
+class _Null:
+    def write(self, _s):
+        return 0
+
+    def flush(self):
+        pass
+
+
+def print_report(r, args):
+    import sys
+    keep = sys.stdout
+    sys.stdout = _Null()
+    try:
+        if args[0] == "pipes":
+            r.print_pipes()
+        else:
+            r.print_details(bool(args[1]))
+    finally:
+        sys.stdout = keep
+
+
 def read_getters(r, lite):
     g = {}
     names = ["channel", "data_rate", "pa_level", "address_length", "ard", "arc", "dynamic_payloads", "payload_length", "ack",
@@ -211,6 +232,20 @@ def run_case(case, prefix=None):
             d = diff_regs(chip.regfile(), model.r)
             if d:
                 res.fail("%s/%s-reg%02X" % (P, args[0], d[0][0]), "register 0x%02X %r, expected %r" % d[0])
+                break
+            continue
+        if name == "print":
+            # print_pipes() / print_details(dump_pipes) re-read the driver's shadow copies from the radio: they are
+            # reports, so they must not raise, must leave every register alone, and whatever follows (getters, ctx)
+            # must still see the configuration in effect
+            try:
+                print_report(r, args)
+            except Exception as e:  # noqa: BLE001
+                res.fail("%s%s/print-raises-%s" % (P, tainted, type(e).__name__), "%s: %r" % (op, e))
+                break
+            d = diff_regs(chip.regfile(), model.r)
+            if d:
+                res.fail("%s%s/print-reg%02X" % (P, tainted, d[0][0]), "after %s register 0x%02X is %r, expected %r" % ((op,) + d[0]))
                 break
             continue
         if name == "getters":
@@ -333,6 +368,7 @@ BOUNDARY_OPS = [
     ["start_carrier_wave"], ["stop_carrier_wave"],
     ["getp", "get_payload_length", -1], ["getp", "get_payload_length", 6], ["getp", "get_auto_ack", 6],
     ["getp", "get_dynamic_payloads", -1],
+    ["print", "pipes"], ["print", "details", True],
 ]
 TAIL = [["ctx"], ["getters"], ["ctx"]]
 
@@ -380,6 +416,7 @@ def strategy(drv="full"):
         st.tuples(st.just("listen"), st.booleans()),
         st.tuples(st.just("load_ack"), st.binary(max_size=34).map(lambda b: {"t": "bytes", "v": b.hex()}), pipe),
         st.just(("start_carrier_wave",)), st.just(("stop_carrier_wave",)), st.just(("ctx",)), st.just(("getters",)),
+        st.sampled_from([("print", "pipes"), ("print", "details", True), ("print", "details", False)]),
         st.tuples(st.just("getp"), st.sampled_from(["get_payload_length", "get_auto_ack", "get_dynamic_payloads"]),
                   st.sampled_from([-1, 6, 7, -6])),
     ]
